@@ -13,6 +13,9 @@ CFG = {
         "Leptos.Owner.C08_handles_invalidated",
         "Leptos.Owner.C08_handles_invalidated_drop",
         "Leptos.Owner.C08_stale_key_never_resolves",
+        "Leptos.Owner.C08_disposed_effect_never_runs",
+        "Leptos.Owner.C08_effects_in_scope_never_run",
+        "Leptos.Owner.C08_frame",
         "Leptos.Owner.C08_frame_owners",
         "Leptos.Owner.C08_frame_items",
         "Leptos.Owner.C08_frame_owners_drop",
@@ -29,10 +32,11 @@ CFG = {
     ],
     "harness_pkg": "hx-c08",
     "harness_bin": "c08",
-    # the arena-length hook (hooks/arena_len.patch) is optional: with `--cfg leptos_verif` the harness
+    # the arena-length hook (hooks/arena_len.patch, in /repo as commit "verif hook: read-only arena length accessor")
+    # is used when present (the harness also compiles and runs without it): with `--cfg leptos_verif` the harness
     # additionally checks `verif_len() - baseline == number of live retained handles` on every line
-    "hooks": False,
-    "n": {"quick": 6000, "thorough": 60000},
+    "hooks": True,
+    "n": {"quick": 6000, "thorough": 100000},
     "trivial_tags": ["plain", "end"],
     "rule": "owner-tree programs on the real reactive_graph under the controlled executor: bodies (token lists) of "
             "effects/memos that create signals, stored values, cleanups (plain and registering-during-cleanup), contexts, "
